@@ -171,8 +171,13 @@ def resolve (σ : List Val) : Val → Val
 /-- `unify_call_head`: call arguments (variables `v j`, canonical) against head arguments (clause variables `var i`,
     `i < n`).  Joint numbering: clause variable `i` is `v i`, call variable `j` is `v (n + j)`.
     Returns the clause context (values of the `n` clause variables). -/
+def varBound : List Val → Nat
+  | [] => 0
+  | .c _ :: r => varBound r
+  | .v j :: r => max (j + 1) (varBound r)
+
 def unifyHead (n : Nat) (call : List Val) (head : List Term) : Option Ctx :=
-  let nv := n + call.length          -- (more than enough: at most one call variable per argument)
+  let nv := n + varBound call        -- a slot for every clause variable and every call variable
   let σ0 : List Val := (List.range nv).map Val.v
   let shift : Val → Val := fun x => match x with | .c c => .c c | .v j => .v (n + j)
   let rec go : List Val → List Term → List Val → Option (List Val)
